@@ -4,7 +4,7 @@ uses them.  Ghost fields are prefixed g_ and exist only in specifications.
 """
 
 from pyvc.spec import declare_class
-from pyvc.values import BYTES, BOOL, FRAG, INT, REAL, ROW, STR, TDict, TList, TOpt, TRef, TSet, TTuple
+from pyvc.values import BYTES, LINE, BOOL, FRAG, INT, REAL, ROW, STR, TDict, TList, TOpt, TRef, TSet, TTuple
 
 declare_class(
     "Scaffold",
@@ -91,7 +91,9 @@ declare_class(
     fields={"out": TRef("BinOut"), "index": TRef("FastaIndex"), "line_length": INT, "gap_character": BYTES},
 )
 # a filesystem path: ghost existence and modification time of the file it names
-declare_class("Path", fields={"g_exists": BOOL, "g_mtime": REAL})
+declare_class("Path", fields={"g_exists": BOOL, "g_mtime": REAL, "name": STR, "g_lines": TList(LINE)})
+# a file opened "rb" and read line by line: ghost list of its lines and the cursor tell() reports
+declare_class("LineFile", fields={"g_lines": TList(LINE), "g_pos": INT})
 declare_class(
     "ScaffoldNamer",
     fields={
